@@ -161,6 +161,28 @@ Definition set_max_lag (s : state) (n : nat) : result :=
                                       ledges := filter (fun e => Nat.leb (snd (fst e)) n && Nat.leb (snd (snd e)) n) (ledges ly) |})
                         (layers s) |}.
 
+(* orient_uncertain_edge(u, v) of the CPDAG (undirected layer 1 -> directed layer 0) and of the PAG (circle layer 1 ->
+   directed layer 0): requires the uncertain edge u - v (for the PAG: the circle edge u -> v), puts the end points in time
+   order (stable for equal lags), removes the uncertain edge with all homologous copies and adds the directed one.
+   Composite, but atomic: if any part raises nothing is changed. Other classes have no such method. *)
+Definition orient (s : state) (u v : tnode) : result :=
+  if negb (Nat.eqb (cls s) 3 || Nat.eqb (cls s) 4) then Raise
+  else match nth_error (layers s) 1 with
+       | None => Raise
+       | Some ly =>
+         if negb (has_edge ly u v) then Raise
+         else
+           let p := if Nat.ltb (snd u) (snd v) then (v, u) else (u, v) in
+           match remove_edge s 1 (fst p) (snd p) with
+           | Raise => Raise
+           | Ok s1 => add_edge s1 0 (fst p) (snd p)
+           end
+       end.
+
+(* has_edge(u, v, edge_type) as a query: Some b, or None when the edge type is unknown (raises) *)
+Definition query_has_edge (s : state) (i : nat) (u v : tnode) : option bool :=
+  match nth_error (layers s) i with None => None | Some ly => Some (has_edge ly u v) end.
+
 Inductive op :=
 | AddEdge (i : nat) (u v : tnode)
 | AddEdges (i : nat) (es : list tedge)
@@ -169,7 +191,9 @@ Inductive op :=
 | AddVar (x : nat)
 | RemoveVar (x : nat)
 | SetMaxLag (n : nat)
-| Copy.
+| Copy
+| Orient (u v : tnode)                   (* CPDAG / PAG orient_uncertain_edge *)
+| HasEdge (i : nat) (u v : tnode).       (* query, no state change *)
 
 Definition apply_op (s : state) (o : op) : result :=
   match o with
@@ -181,6 +205,8 @@ Definition apply_op (s : state) (o : op) : result :=
   | RemoveVar x => Ok (remove_var s x)
   | SetMaxLag n => set_max_lag s n
   | Copy => Ok s                          (* the history continues on the copy *)
+  | Orient u v => orient s u v
+  | HasEdge i u v => match query_has_edge s i u v with Some _ => Ok s | None => Raise end
   end.
 
 (* (new state, raised?) ; a raise leaves the state unchanged *)
@@ -212,6 +238,8 @@ Definition sx_op (s : sx) : op :=
   | 4 => AddVar (sx_nat (sx_nth s 1))
   | 5 => RemoveVar (sx_nat (sx_nth s 1))
   | 6 => SetMaxLag (sx_nat (sx_nth s 1))
+  | 8 => Orient (sx_node (sx_nth s 1)) (sx_node (sx_nth s 2))
+  | 9 => HasEdge (sx_nat (sx_nth s 1)) (sx_node (sx_nth s 2)) (sx_node (sx_nth s 3))
   | _ => Copy
   end.
 
@@ -221,12 +249,19 @@ Definition of_state (s : state) : sx :=
   L [I (cls s); I (maxlag s); L (map of_node (nodes s));
      L (map (fun ly => L [I (llag ly); L (map of_edge (ledges ly))]) (layers s))].
 
+(* the value a query op returns (1 / 0), 0 for the other ops *)
+Definition answer (s : state) (o : op) : nat :=
+  match o with
+  | HasEdge i u v => match query_has_edge s i u v with Some true => 1 | _ => 0 end
+  | _ => 0
+  end.
+
 Fixpoint trace (s : state) (ops : list op) : list sx :=
   match ops with
   | [] => []
-  | o :: t => let r := step s o in L [of_bool (snd r); of_state (fst r)] :: trace (fst r) t
+  | o :: t => let r := step s o in L [of_bool (snd r); of_state (fst r); I (answer s o)] :: trace (fst r) t
   end.
 
-(* run_case: L [I cls; I L0; L ops] -> L [ L [raised; state] per op ] *)
+(* run_case: L [I cls; I L0; L ops] -> L [ L [raised; state; answer] per op ] *)
 Definition run_case (s : sx) : sx :=
   L (trace (init (sx_nat (sx_nth s 0)) (sx_nat (sx_nth s 1))) (map sx_op (sx_list (sx_nth s 2)))).
